@@ -41,6 +41,8 @@ from ipv8.messaging.anonymization.tunnel import (
 from ipv8.messaging.interfaces.udp.endpoint import UDPv4Address
 from ipv8.messaging.lazy_payload import VariablePayload, vp_compile
 
+from ipv8.attestation.communication_manager import CommunicationManager
+from ipv8.messaging.anonymization.hidden_services import HiddenTunnelCommunity
 from ipv8_service import IPv8
 
 from .. import core, fixtures, simnet
@@ -104,7 +106,7 @@ class Ref:
 # the explored world
 # ------------------------------------------------------------------------------------------------
 
-ROUTES = ("wired", "service", "service+stats")
+ROUTES = ("wired", "service", "service+stats", "pseudonym")
 
 
 def find_tunnel_endpoint(endpoint):  # noqa: ANN001, ANN201
@@ -125,12 +127,15 @@ class C07World(simnet.World):
         overlays itself.  "service" / "service+stats": N is constructed by ipv8_service.IPv8 from a configuration that
         lists a TunnelCommunity, the anonymized overlay (initialize: anonymize) and the plain overlay, with the SimEndpoint
         as endpoint_override and enable_statistics False / True - the endpoint stack is then the deployment's own.
+        "pseudonym": N is an ipv8_service.IPv8 with a HiddenTunnelCommunity on its main socket; a pseudonym is loaded through
+        CommunicationManager.load() (what the REST identity API does), which creates an IdentityCommunity and an
+        AttestationCommunity on one anonymizing endpoint with a socket of its own.  Both asked for anonymity; here "anon" is
+        the identity overlay, "plain" (a misnomer on this route) the attestation overlay, the raw socket is the pseudonym's.
         """
         super().__init__(("c07", seed))
         idx = fixtures.rotate(seed, 1 + len(ROLES))
         self.route = route
         self.ov: dict[str, TunnelCommunity] = {}
-        self.flags: dict[str, set] = {"N": set(RELAY), **{k: set(v) for k, v in ROLES.items()}}
 
         n = self.add_node("N", idx[0])
         self.n = n
@@ -142,6 +147,8 @@ class C07World(simnet.World):
             anon_settings.anonymize = True
             self.anon = n.add_overlay(AnonOverlay, anon_settings, endpoint=self.app_ep)
             self.plain = n.add_overlay(PlainOverlay, endpoint=self.app_ep)
+        elif route == "pseudonym":
+            self.tc, self.anon, self.plain = n.run(self._via_communication_manager, n, idx[0])
         else:
             self.tc, self.anon, self.plain = n.run(self._via_service, n, route == "service+stats")
         self.ov["N"] = self.tc
@@ -166,6 +173,8 @@ class C07World(simnet.World):
 
         self.a_prefix, self.p_prefix, self.t_prefix = self.anon.get_prefix(), self.plain.get_prefix(), self.tc.get_prefix()
         self.ref = Ref()
+        if route == "pseudonym":
+            self.ref.asked["plain"] = self.ref.ever_asked["plain"] = True   # the attestation overlay of an anonymized pseudonym
         self.marker = 0
         self.calls: list[dict] = []                    # send_data calls of the current step
         self.wire_mark = len(self.wire_log)
@@ -179,6 +188,47 @@ class C07World(simnet.World):
         self.removal_requested: set[int] = set()       # circuit ids somebody called remove_circuit for (reference)
         self._wrap_send_data()
         self._wrap_remove_circuit()
+        self.created_exit: dict[int, tuple] = {}       # circuit id -> (exit node, the flags it REALLY had at creation)
+        self._wrap_create_circuit()
+
+    def _via_communication_manager(self, node, key_index: int):  # noqa: ANN001, ANN202
+        """N = IPv8(HiddenTunnelCommunity on the main socket) + one pseudonym loaded by the CommunicationManager."""
+        configuration = {
+            "logger": {"level": "CRITICAL"}, "walker_interval": 0.5, "working_directory": ":memory:",
+            "keys": [{"alias": "k", "file": "", "generation": "curve25519",
+                      "bin": base64.b64encode(fixtures.private_bin(node.key_index)).decode()}],
+            "overlays": [{"class": "HiddenTunnelCommunity", "key": "k", "walkers": [], "bootstrappers": [], "on_start": [],
+                          "initialize": {"peer_flags": set(RELAY), "min_circuits": 0, "max_circuits": 0}}]}
+        ipv8 = IPv8(configuration, endpoint_override=node.endpoint)
+        self.ipv8 = ipv8
+        tc = ipv8.get_overlay(HiddenTunnelCommunity)
+        tc.my_peer.address = node.address
+        tc.my_estimated_wan = tc.my_estimated_lan = node.address
+        node.overlays.append(tc)
+        node.my_peer, node.network = tc.my_peer, ipv8.network
+        # the pseudonym's own socket: produce_anonymized_endpoint() opens a UDPEndpoint; here it is a second SimEndpoint
+        p_address = UDPv4Address(node.address[0], node.address[1] + 7000)
+        p_raw = simnet.SimEndpoint(self, p_address, "N-pseudonym")
+        p_raw.node = node
+        self.endpoints[tuple(p_address)] = p_raw
+
+        async def produce_anonymized_endpoint() -> TunnelEndpoint:
+            return TunnelEndpoint(p_raw)
+
+        ipv8.produce_anonymized_endpoint = produce_anonymized_endpoint
+        manager = CommunicationManager(ipv8, working_directory=":memory:")
+        # identities are fixtures, never generated or stored at run time
+        manager.pseudonym_folder_manager = type("Keys", (), {"get_or_create_private_key": staticmethod(
+            lambda name: fixtures.private_key(key_index + 5))})()
+        channel = self.drive(manager.load("pseudonym"))
+        self.manager = manager
+        for o in (channel.identity_overlay, channel.attestation_overlay):
+            o.my_peer.address = p_address
+            o.my_estimated_wan = o.my_estimated_lan = p_address
+            node.overlays.append(o)
+        self.raw = p_raw                                # what leaves here leaves from the pseudonym's own address
+        self.app_ep = channel.identity_overlay.endpoint
+        return tc, channel.identity_overlay, channel.attestation_overlay
 
     def _via_service(self, node, statistics: bool):  # noqa: ANN001, ANN202
         """Node N as ipv8_service.IPv8 builds it (mirrors mc.tunnelworld.TunnelWorld._make_via, three overlays)."""
@@ -241,6 +291,34 @@ class C07World(simnet.World):
 
         tc.remove_circuit = remove_circuit
 
+    def _wrap_create_circuit(self) -> None:
+        """Ground truth for "ends in an IPv8-capable exit": what the exit node itself is configured as when the circuit starts."""
+        tc, inner = self.tc, self.tc.create_circuit
+
+        def create_circuit(*args, **kwargs):  # noqa: ANN002, ANN003, ANN202
+            c = inner(*args, **kwargs)
+            if c is not None and c.required_exit is not None:
+                name = self.by_key.get(c.required_exit.public_key.key_to_bin(), "?")
+                self.created_exit[c.circuit_id] = (name, tuple(sorted(self.true_flags(name))))
+            return c
+
+        tc.create_circuit = create_circuit
+
+    def true_flags(self, name: str) -> set:
+        o = self.ov.get(name)
+        return set(o.settings.peer_flags) if o is not None else set()
+
+    def set_exit_flag(self, name: str, announce: bool) -> None:
+        """The exit's operator switches IPv8 exiting on/off; the exit and N then meet again through real introductions."""
+        o = self.ov[name]
+        flags = set(o.settings.peer_flags)
+        flags = flags | {PEER_FLAG_EXIT_IPV8} if announce else flags - {PEER_FLAG_EXIT_IPV8}
+        o.settings.peer_flags = flags
+        self.nodes[name].run(o.walk_to, self.n.address)      # N learns it from the request ...
+        self.flush()
+        self.n.run(self.tc.walk_to, self.nodes[name].address)  # ... and from the response to its own request
+        self.flush()
+
     def node_of(self, hop) -> str:  # noqa: ANN001
         return self.by_key.get(hop.peer.public_key.key_to_bin(), "?")
 
@@ -248,7 +326,9 @@ class C07World(simnet.World):
         hops = c.hops
         exit_name = self.node_of(hops[-1]) if hops else None
         return {"state": c.state, "goal_hops": c.goal_hops, "hops": len(hops), "exit_flags": sorted(c.exit_flags),
-                "exit": exit_name, "exit_true_flags": sorted(self.flags.get(exit_name, ())) if exit_name else [],
+                "exit": exit_name,
+                "exit_true_flags": list(self.created_exit.get(c.circuit_id, (exit_name, tuple(sorted(self.true_flags(exit_name)))))[1])
+                if exit_name else [],
                 "first": self.node_of(hops[0]) if hops else None}
 
     # -- coarse description of the routing situation (violation keys and event enabling only) ----------
@@ -278,15 +358,23 @@ class C07World(simnet.World):
         assert overlay is not None, "a send by an overlay after its own unload is C11's subject, not judged here"
         for _ in range(count):
             self.marker += 1
-            p = self.n.run(overlay.send_marker, DEST_ANON, self.marker)
+            p = self.n.run(self._emit, overlay, DEST_ANON)
             self.sent_now["anon"].append(p)
             self.ref.packets["anon"].add(p)
             self.ref.fates["anon_produced"] += 1
             self.max_queue = max(self.max_queue, len(self.tep.send_queue))
 
+    def _emit(self, overlay, dest) -> bytes:  # noqa: ANN001
+        """One datagram of the overlay: the toy overlays' numbered message, a real overlay's introduction request (walk_to)."""
+        if hasattr(overlay, "send_marker"):
+            return overlay.send_marker(dest, self.marker)
+        packet = overlay.create_introduction_request(dest)
+        overlay.endpoint.send(dest, packet)
+        return packet
+
     def send_plain(self) -> None:
         self.marker += 1
-        p = self.n.run(self.plain.send_marker, DEST_PLAIN, self.marker)
+        p = self.n.run(self._emit, self.plain, DEST_PLAIN)
         self.sent_now["plain"].append(p)
         self.ref.packets["plain"].add(p)
         self.max_queue = max(self.max_queue, len(self.tep.send_queue))
@@ -476,6 +564,8 @@ class Model(core.BfsModel):
                 continue
             if k == "burst" and not self.burst_ok(w):
                 continue
+            if k == "xflags" and (PEER_FLAG_EXIT_IPV8 in w.true_flags(ev[1])) == bool(ev[2]):
+                continue
             if k == "sa2" and w.inst[2] is None:
                 continue
             if k == "load2" and w.inst[2] is not None:
@@ -518,6 +608,8 @@ class Model(core.BfsModel):
             w.app_ep.set_anonymity(w.a_prefix, w.ref.asked["anon"])
         elif k == "setp":
             w.set_other(ev[1], bool(ev[2]))
+        elif k == "xflags":
+            w.set_exit_flag(ev[1], bool(ev[2]))
         elif k == "sa2":
             w.send_anon(inst=2)
         elif k == "load2":
@@ -564,7 +656,7 @@ class Model(core.BfsModel):
                              c.unverified_hop is not None,
                              c.required_exit is not None and w.by_key.get(c.required_exit.public_key.key_to_bin()),
                              round(now - c.last_activity, 3), tc.request_cache.has(RetryRequestCache, c.circuit_id),
-                             c.circuit_id in w.removal_requested))
+                             c.circuit_id in w.removal_requested, w.created_exit.get(c.circuit_id)))
         tables = []
         for name in ("N", *ROLES):
             o = w.ov[name]
@@ -574,7 +666,7 @@ class Model(core.BfsModel):
                                         for r in o.relay_from_to.values())),
                            tuple(sorted((w.by_key.get(p.public_key.key_to_bin(), "?"), tuple(sorted(f)))
                                         for p, f in o.candidates.items())),
-                           len(o.request_cache._identifiers)))  # noqa: SLF001
+                           len(o.request_cache._identifiers), tuple(sorted(o.settings.peer_flags))))  # noqa: SLF001
         timers = tuple(sorted(round(h._when - w.loop.time(), 3) for h in w.loop._scheduled if not h._cancelled))  # noqa: SLF001
         queue = [(labels.get(p[:22], "other"), tuple(a)) for a, p in tep.send_queue]
         return (settings, tep.tunnel_community is tc, tep.tunnel_community is None, tep.hops,
@@ -708,7 +800,14 @@ FULL = [("sa",), ("sp",), ("burst",),
         ("setp", "tunnel", False), ("setp", "plain", False), ("setp", "plain", True), ("setp", "unknown", False)]
 LIFE = [("sa",), ("sa2",), ("load2",), ("unload", 1), ("unload", 2), ("toggle",), ("build", "X", 1), ("rm", "first"),
         ("tick",), ("detach",)]
-EVERYTHING = FULL + [e for e in LIFE if e not in FULL]
+# the exit's operator withdraws / re-announces IPv8 exiting (real re-introduction in both directions inside the event)
+FLAGS = [("sa",), ("xflags", "X", False), ("xflags", "X", True), ("build", "X", 1), ("build", "Y", 1), ("build", "X", 2),
+         ("rm", "first"), ("tick",), ("attach", 2)]
+FULLX = FULL + [("xflags", "X", False), ("xflags", "X", True)]
+# the pseudonym route: "sa" = identity overlay sends, "sp" = attestation overlay sends
+PSEUDO = [("sa",), ("sp",), ("build", "X", 1), ("build", "Y", 1), ("rm", "first"), ("tick",), ("detach",), ("attach", 2),
+          ("toggle",), ("xflags", "X", False)]
+EVERYTHING = FULLX + [e for e in LIFE if e not in FULLX]
 CORE = [("sa",), ("burst",), ("build", "X", 1), ("build", "Y", 1), ("build", "X", 2),
         ("rm", "first"), ("tick",), ("detach",), ("attach", 2), ("toggle",)]
 CORE_QUICK = [e for e in CORE if e != ("burst",)]    # quick: the burst (most expensive event) only in FULL; see notes
@@ -729,16 +828,19 @@ WITNESSES = [
     [("setp", "tunnel", False), ("sa",), ("sa",)],
     [("setp", "plain", True), ("sp",), ("sp",), ("setp", "plain", False), ("sp",)],
     [("load2",), ("unload", 1), ("sa2",), ("sa2",)],
+    [("xflags", "X", False), ("sa",), ("sa",), ("xflags", "X", True), ("sa",), ("sa",)],
     [("load2",), ("unload", 2), ("unload", 1), ("load2",), ("sa2",)],
 ]
 
 
 def configs(ctx: core.Ctx) -> list[tuple[str, list, int, int, str]]:
     """(name, alphabet, depth, max circuits started by build events, construction route of node N)."""
-    cfg = ([("core", CORE, 9, 2, "wired"), ("full", FULL, 5, 3, "wired"), ("life", LIFE, 8, 2, "wired"),
-            ("service", FULL, 4, 3, "service"), ("service+stats", FULL, 4, 3, "service+stats")] if ctx.thorough else
+    cfg = ([("core", CORE, 9, 2, "wired"), ("full", FULLX, 5, 3, "wired"), ("life", LIFE, 8, 2, "wired"),
+            ("flags", FLAGS, 7, 2, "wired"), ("service", FULL, 4, 3, "service"), ("service+stats", FULL, 4, 3, "service+stats"),
+            ("pseudonym", PSEUDO, 5, 2, "pseudonym")] if ctx.thorough else
            [("core", CORE_QUICK, 7, 2, "wired"), ("full", FULL, 4, 3, "wired"), ("life", LIFE, 5, 2, "wired"),
-            ("service", FULL, 3, 3, "service"), ("service+stats", FULL, 3, 3, "service+stats")])
+            ("flags", FLAGS, 4, 2, "wired"), ("service", FULL, 2, 3, "service"), ("service+stats", FULL, 3, 3, "service+stats"),
+            ("pseudonym", PSEUDO, 3, 2, "pseudonym")])
     cap = int(os.environ.get("C07_MAX_DEPTH", "0") or 0)     # screening aid (mutant runs); reported as not exhaustive
     return [(n, a, min(d, cap) if cap else d, mc, route) for n, a, d, mc, route in cfg]
 
